@@ -123,12 +123,12 @@ FloatQ(d) == IF d.e >= 0 THEN Q(I(d.neg, Shl(d.m, d.e)), One) ELSE Q(I(d.neg, d.
 \* ------------------------------------------------------------------ rigorous enclosure of log2
 (* Log2Encl(N, D, J) for naturals N, D > 0 returns [k, a, j, w] with
        k + a / 2^j  <=  log2(N / D)  <=  k + (a + w) / 2^j ,    w in {0, 1}, j <= J.
-   Method: y = N / (D 2^k) in [1, 2) is enclosed in a fixed-point interval with P = J + 40
+   Method: y = N / (D 2^k) in [1, 2) is enclosed in a fixed-point interval with P = J + 32
    fractional bits; squaring the interval yields one bit of the logarithm per step (y^2 >= 2:
    bit 1 and halve).  All roundings are outward; a step whose interval straddles 2 ends the
    computation early (j < J), which only makes the enclosure wider.  Folds only. *)
 Log2Encl(N, D, J) ==
-  LET P == J + 40
+  LET P == J + 32
       kk == BitLen(N) - BitLen(D)
       ge == IF kk >= 0 THEN Cmp(N, Shl(D, kk)) >= 0 ELSE Cmp(Shl(N, -kk), D) >= 0
       k0 == IF ge THEN kk ELSE kk - 1
